@@ -263,13 +263,15 @@ def _decompress_body_gzip(data: bytes, *, max_output_size: int | None = None) ->
 
     *data* may hold several members back to back (RFC 1952 §2.2: the content
     is the concatenation of what each member decodes to); every member is
-    decoded and all of them share one cap.
+    decoded and all of them share one cap.  A member that stops before its
+    trailer (CRC-32 and length) raises :class:`DecompressionError`; empty
+    *data* holds no member and decodes to nothing.
     """
     chunks: list[bytes] = []
     total = 0
     remaining = data
     members = 0
-    while True:
+    while remaining:
         do = zlib.decompressobj(_GZIP_WBITS)
         inbuf = remaining
         # ``do.eof`` ends a member: once its trailer has been read zlib produces
@@ -294,12 +296,14 @@ def _decompress_body_gzip(data: bytes, *, max_output_size: int | None = None) ->
                         f"Decompressed gzip output exceeds max_output_size={max_output_size}"
                     )
                 chunks.append(chunk)
-            elif not inbuf:
-                break
+            elif not inbuf and not do.eof:
+                # Input used up before the member's trailer: what was produced
+                # so far is a prefix of the content, not the content.
+                raise DecompressionError(
+                    f"Truncated gzip member {members + 1}: input ends before the end of the stream"
+                )
         members += 1
         remaining = do.unused_data
-        if not remaining:
-            break
     return chunks[0] if len(chunks) == 1 else b"".join(chunks)
 
 
